@@ -533,9 +533,12 @@ func (fr *FuncRun) builtinAppend(f *Frame, st *State, c *ssa.CallCommon, args []
 	}
 	// when reusing, cells outside the appended window keep their value
 	fr.assume(st, implies(fits, fmt.Sprintf("(forall ((%s Int)) (=> (or (< %s (+ %s (s-len %s))) (>= %s (+ %s %s))) (= (select %s %s) (select %s %s))))", i, i, off, s.T, i, off, newLen, na, i, oldArr, i)))
+	savedFresh := fr.curWriteFresh
+	fr.curWriteFresh = s.FreshArr
 	fr.heapSet(st, eh, sto(cur, arr, na))
+	fr.curWriteFresh = savedFresh
 	r := fr.def(sSlice, fmt.Sprintf("(mk-slice %s %s %s %s)", arr, off, newLen, cp))
-	return Val{T: r, S: sSlice}
+	return Val{T: r, S: sSlice, FreshArr: s.FreshArr}
 }
 
 func (fr *FuncRun) builtinCopy(f *Frame, st *State, c *ssa.CallCommon, args []Val, pos token.Pos) Val {
@@ -560,6 +563,9 @@ func (fr *FuncRun) builtinCopy(f *Frame, st *State, c *ssa.CallCommon, args []Va
 		fr.assume(st, fmt.Sprintf("(forall ((%s Int)) (=> (and (<= 0 %s) (< %s %s)) (= (select %s (+ (s-off %s) %s)) (select %s (+ (s-off %s) %s)))))", i, i, i, n, na, d.T, i, srcArr, s.T, i))
 	}
 	fr.assume(st, fmt.Sprintf("(forall ((%s Int)) (=> (or (< %s (s-off %s)) (>= %s (+ (s-off %s) %s))) (= (select %s %s) (select %s %s))))", i, i, d.T, i, d.T, n, na, i, oldArr, i))
+	savedFresh := fr.curWriteFresh
+	fr.curWriteFresh = d.FreshArr
 	fr.heapSet(st, eh, sto(cur, "(s-arr "+d.T+")", na))
+	fr.curWriteFresh = savedFresh
 	return Val{T: n, S: sInt}
 }
